@@ -291,15 +291,23 @@ def gen_import(rng, mod, members, semi, style):
     return s + (";" if semi else "")
 
 
-def gen_doc(rng, world, need, want_nosemi=False, nonascii_tail=False, exclude=()):
+def gen_doc(rng, world, need, want_nosemi=False, nonascii_tail=False, exclude=(), tight=None):
     """A document that uses class `need` without importing it (and never mentions the classes in
-    `exclude`). Returns (text, meta)."""
+    `exclude`). Returns (text, meta).  `tight` layouts put something other than whitespace or a `//`
+    comment behind the last import on the same line: a class that starts there and continues below
+    (`class_starts`), a complete class with more below (`class_complete`), a block comment
+    (`block_comment`), or the whole document on one line without a final newline (`one_line`)."""
     EXPORTERS = world["mods"]
-    avoid_open = False
     mods = list(EXPORTERS)
+    if tight is None:
+        tight = rng.weighted([("", 68), ("class_starts", 9), ("class_complete", 8), ("block_comment", 7), ("one_line", 8)])
     k = rng.weighted([(0, 25), (1, 30), (2, 25), (3, 12), (4, 8)])
+    if tight and k == 0:
+        k = rng.range(1, 2)
     pieces = []
     lead = rng.pick(["", "", "\n", "\n\n", "  ", "// header\n", "/* header */ ", "/** doc */\n", "\t\n"])
+    if tight == "one_line":
+        lead = rng.pick(["", " ", "/* h */ "])
     pieces.append(lead)
     imports = []
     for i in range(k):
@@ -309,47 +317,85 @@ def gen_doc(rng, world, need, want_nosemi=False, nonascii_tail=False, exclude=()
             continue
         members = rng.shuffle(cands)[:rng.range(1, len(cands))]
         last = (i == k - 1)
-        semi = True if (last and avoid_open) else not rng.chance(1, 4)
+        semi = not rng.chance(1, 4)
         if last and want_nosemi:
             semi = False
         style = rng.below(6)
+        if tight == "one_line" and style == 2:
+            style = 0
         txt = gen_import(rng, mod, members, semi, style)
-        if last and not semi and avoid_open:
-            txt += ";"
         imports.append((mod, members, semi))
         pieces.append(txt)
         sep = rng.weighted([("\n", 50), ("\n\n", 12), (" ", 8), ("", 6 if semi else 0), (" " + rng.pick(COMMENTS[:3]) + "\n", 14),
                             ("\n" + rng.pick(COMMENTS) + "\n", 14), ("\r\n", 4)])
         if last and nonascii_tail:
             sep = " // é𝔸\n"
+        if tight == "one_line":
+            sep = rng.pick([" ", "  ", " /* c */ "] + ([""] if semi else []))
+        elif last and tight in ("class_starts", "class_complete"):
+            sep = rng.pick([" ", "  "] + ([""] if semi else []))
+        elif last and tight == "block_comment":
+            sep = rng.pick([" /* note\n   continues */\n", " /* c */ ", " /** doc\n */ ", "/* glued */\n" if semi else " /* c */\n"])
         pieces.append(sep)
-    if want_nosemi and not imports and need != world["cn"]("Only"):
+    if (want_nosemi or tight) and not imports and need != world["cn"]("Only"):
         mod = world["mn"]("D")
-        imports.append((mod, [world["cn"]("Only")], False))
-        pieces.append("import { %s } from %s" % (world["cn"]("Only"), mod))
-        pieces.append(rng.pick(["\n", " // t\n", "\n\n"]))
+        semi = not want_nosemi and rng.chance(1, 2)
+        imports.append((mod, [world["cn"]("Only")], semi))
+        pieces.append("import { %s } from %s%s" % (world["cn"]("Only"), mod, ";" if semi else ""))
+        if tight == "block_comment":
+            pieces.append(" /* note\n   continues */\n")
+        elif tight:
+            pieces.append(" ")
+        else:
+            pieces.append(rng.pick(["\n", " // t\n", "\n\n"]))
     use = rng.weighted([("call", 40), ("param", 20), ("field", 15), ("two", 15), ("local", 10)])
     cname = rng.pick(["Main", "Main2", "App"])
     pre = rng.pick(["", "", rng.pick(COMMENTS) + "\n", "\n"])
+    joiner = rng.pick(["\n", "\n\n", "\n", " ", ""])
+    if tight in ("class_starts", "class_complete", "one_line"):
+        pre = ""
+    one_line_main = {"call": f"class {cname} {{ function main(): int = {need}.bar() }}",
+                     "param": f"class {cname} {{ function f(x: {need}): int = 1 }}",
+                     "field": f"class {cname}(val f: {need}) {{ method g(): int = 2 }}",
+                     "two": f"class {cname} {{ function main(): int = {need}.bar() + {need}.bar() }}",
+                     "local": f"class {cname} {{ function main(): int = {{ let v = {need}.bar(); v }} }}"}[use]
     if use == "call":
-        body = f"{pre}class {cname} {{\n  function main(): int = {need}.bar()\n}}\n"
+        main = f"class {cname} {{\n  function main(): int = {need}.bar()\n}}"
     elif use == "param":
-        body = f"{pre}class {cname} {{\n  function f(x: {need}): int = 1\n}}\n"
+        main = f"class {cname} {{\n  function f(x: {need}): int = 1\n}}"
     elif use == "field":
-        body = f"{pre}class {cname}(val f: {need}) {{\n  method g(): int = 2\n}}\n"
+        main = f"class {cname}(val f: {need}) {{\n  method g(): int = 2\n}}"
     elif use == "two":
-        body = (f"{pre}class {cname} {{\n  function main(): int = {need}.bar() + {need}.bar()\n}}\n\n"
-                f"interface Other {{ function h(y: {need}): int }}\n")
+        main = f"class {cname} {{\n  function main(): int = {need}.bar() + {need}.bar()\n}}"
     else:
-        body = f"{pre}class {cname} {{\n  function main(): int = {{\n    let v = {need}.bar();\n    v\n  }}\n}}\n"
+        main = f"class {cname} {{\n  function main(): int = {{\n    let v = {need}.bar();\n    v\n  }}\n}}"
+    tops = []
+    if tight == "class_complete":
+        tops.append(rng.pick(["class Extra0 { function z(): int = 0 }", "interface Extra1 {}", "class Extra2 {}"]))
+    if tight == "one_line" or (not tight and rng.chance(1, 6)):
+        main = one_line_main
+    tops.append(main)
+    if use == "two":
+        tops.append(f"interface Other {{ function h(y: {need}): int }}")
+    elif rng.chance(1, 5):
+        tops.append(rng.pick(["class Tail {}", "interface TailI { function t(): int }"]))
+    if tight == "one_line":
+        body = pre + " ".join(tops)
+        tail = rng.pick(["", "", " ", " /* end */"])
+    else:
+        if tight == "class_complete":
+            body = pre + tops[0] + rng.pick(["\n", "\n\n"]) + joiner.join(tops[1:]) + "\n"
+        else:
+            body = pre + joiner.join(tops) + "\n"
+        tail = rng.pick(["", "", "\n", "// end\n", "/* end */"])
     pieces.append(body)
-    tail = rng.pick(["", "", "\n", "// end\n", "/* end */"])
     pieces.append(tail)
     text = "".join(pieces)
-    return text, {"imports": len(imports), "use": use, "lead": lead != "", "nosemi_last": bool(imports) and not imports[-1][2] and not avoid_open}
+    return text, {"imports": len(imports), "use": use, "lead": lead != "", "layout": tight or "plain",
+                  "nosemi_last": bool(imports) and not imports[-1][2]}
 
 
-def gen_case(rng, want_nosemi=False, nonascii_tail=False, force_hist=None):
+def gen_case(rng, want_nosemi=False, nonascii_tail=False, force_hist=None, tight=None):
     """One workspace + history. Returns dict(lines=[protocol lines up to final state], doc, need, exporters)."""
     world = make_world(rng)
     cn, mn = world["cn"], world["mn"]
@@ -357,7 +403,7 @@ def gen_case(rng, want_nosemi=False, nonascii_tail=False, force_hist=None):
     need = cn(role)
     final_mods = {m: list(cs) for m, cs in world["mods"].items()}
     private_in = rng.pick(list(final_mods))
-    doc, meta = gen_doc(rng, world, need, want_nosemi, nonascii_tail)
+    doc, meta = gen_doc(rng, world, need, want_nosemi, nonascii_tail, tight=tight)
     hist = force_hist or rng.weighted([("none", 25), ("pre_mention", 25), ("doc_edit", 15), ("late_export", 12),
                                        ("rename_exporter", 9), ("remove_exporter", 7), ("doc_late", 7)])
     lines = ["new"]
@@ -580,8 +626,11 @@ def nosemi_signature(doc, edits):
 class DocRunner:
     """Runs cases against the harness in batches (two phases: query, then evaluate splices)."""
 
-    def __init__(self, ctx, stats):
-        self.ctx, self.stats = ctx, stats
+    def __init__(self, ctx, stats, defer=False, rng=None):
+        """`defer`: collect failures / tie disagreements in `self.deferred` instead of reporting them
+        (used when batches run in parallel; the caller reports them in a fixed order)."""
+        self.ctx, self.stats, self.defer, self.deferred = ctx, stats, defer, []
+        self.rng = rng if rng is not None else ctx.rng
 
     def harness(self, lines):
         rc, out, err = common.run_exec(common.harness_bin(PROP), [], lines)
@@ -615,7 +664,7 @@ class DocRunner:
                     m = re.match(r"(\d+):(\d+)-(\d+):(\d+)", loc)
                     sl, sc, el, ec = map(int, m.groups())
                     nm = unhex(kind[2:]).decode()
-                    rng = self.ctx.rng
+                    rng = self.rng
                     k = rng.below(3)
                     if k == 0 or sl != el:
                         qs.append(("qa", nm, f"qa Doc {sl} {sc} {el} {ec}"))
@@ -655,6 +704,8 @@ class DocRunner:
             self.stats["cases"] += 1
             self.stats["history"][c["meta"]["history"]] = self.stats["history"].get(c["meta"]["history"], 0) + 1
             self.stats["imports_hist"][str(c["meta"]["imports"])] = self.stats["imports_hist"].get(str(c["meta"]["imports"]), 0) + 1
+            ly = c["meta"].get("layout", "?")
+            self.stats.setdefault("layout_hist", {})[ly] = self.stats.setdefault("layout_hist", {}).get(ly, 0) + 1
             nm = c["meta"].get("names", "?")
             self.stats.setdefault("names_hist", {})[nm] = self.stats.setdefault("names_hist", {}).get(nm, 0) + 1
             if not c["state_ok"]:
@@ -691,12 +742,14 @@ class DocRunner:
             self.stats["tie_aimp"] += 1
             if m == a["raw_edits"]:
                 self.stats["tie_aimp_ok"] += 1
-            elif len(self.ctx.violations) < 3:
-                self.ctx.violation("model/implementation disagreement on protocol aimp (generate_auto_import_edits)",
-                                   {"protocol": "aimp", "label": label, "doc": c["doc"], "query": a["query"], "impl": a["raw_edits"],
-                                    "model": m, "ops": c["lines"] + [a["query"]], "model_op": line,
-                                    "broken": "correspondence `aimp` (Model/DifferText.lean autoImportEdits vs lib.rs generate_auto_import_edits): theorem auto_import_text no longer speaks about this code"},
-                                   no_input=True)
+            else:
+                payload = {"protocol": "aimp", "label": label, "doc": c["doc"], "query": a["query"], "impl": a["raw_edits"],
+                           "model": m, "ops": c["lines"] + [a["query"]], "model_op": line,
+                           "broken": "correspondence `aimp` (Model/DifferText.lean autoImportEdits vs lib.rs generate_auto_import_edits): theorem auto_import_text no longer speaks about this code"}
+                if self.defer:
+                    self.deferred.append(("tie", payload))
+                elif len(self.ctx.violations) < 3:
+                    self.ctx.violation("model/implementation disagreement on protocol aimp (generate_auto_import_edits)", payload, no_input=True)
 
     def actions_of(self, c, kind, nm, ql, ans):
         acts = []
@@ -782,6 +835,9 @@ class DocRunner:
 
     def fail(self, c, a, bad, label, probe_of=None):
         ctx = self.ctx
+        if self.defer:
+            self.deferred.append(("fail", c, a, bad, label))
+            return
         payload = {"protocol": "docs", "label": label, "ops": c["lines"] + ([a["query"]] if a else []), "doc": c["doc"],
                    "need": c["need"], "exporters": c["exporters"], "failures": bad,
                    "action": {k: v for k, v in (a or {}).items() if k in ("kind", "query", "name", "module", "title", "edits", "spliced", "reason")}}
@@ -1029,6 +1085,59 @@ def check_import_tie(ctx, runner, pairs, label, stats):
             stats["tie_import_ok"] += 1
 
 
+def merge_stats(dst, src):
+    for k, v in src.items():
+        if isinstance(v, int):
+            dst[k] = dst.get(k, 0) + v
+        elif isinstance(v, set):
+            dst.setdefault(k, set()).update(v)
+        elif isinstance(v, dict):
+            d = dst.setdefault(k, {})
+            for kk, vv in v.items():
+                d[kk] = d.get(kk, 0) + vv
+        elif isinstance(v, list):
+            dst.setdefault(k, [])
+            dst[k] += v[:max(0, 3 - len(dst[k]))]
+
+
+def run_doc_batches(ctx, batches, rng, stats, label, workers=4):
+    """Run document batches on a few harness processes in parallel.  Everything random is drawn
+    before the threads start (one forked rng per batch) and the results are merged in batch order,
+    so a run is deterministic for a given seed."""
+    from concurrent.futures import ThreadPoolExecutor
+    runners = [DocRunner(ctx, new_stats(), defer=True, rng=rng.fork()) for _ in batches]
+    def work(i):
+        runners[i].run_cases(batches[i], label)
+        return i
+    with ThreadPoolExecutor(max_workers=workers) as ex:
+        list(ex.map(work, range(len(batches))))
+    deferred = []
+    for r in runners:
+        merge_stats(stats, r.stats)
+        deferred += r.deferred
+    return deferred
+
+
+def report_deferred(ctx, runner, deferred, rng, stats):
+    """Concrete property failures first; a tie disagreement is reported as such only after a search
+    for a failing document (layouts that put text behind the last import on its line) found nothing."""
+    fails = [d for d in deferred if d[0] == "fail"]
+    ties = [d for d in deferred if d[0] == "tie"]
+    for _, c, a, bad, label in fails[:3]:
+        runner.fail(c, a, bad, label)
+    if ties and not fails:
+        batches = [[gen_case(rng.fork(), tight=t) for t in ("class_starts", "class_complete", "block_comment", "one_line") * 12]
+                   for _ in range(4)]
+        more = run_doc_batches(ctx, batches, rng, stats, "search after aimp disagreement")
+        found = [d for d in more if d[0] == "fail"]
+        for _, c, a, bad, label in found[:3]:
+            runner.fail(c, a, bad, label)
+        if not found:
+            ctx.violation("model/implementation disagreement on protocol aimp (generate_auto_import_edits); no failing "
+                          "document found among the generated and the searched layouts", ties[0][1], no_input=True)
+    stats["tie_disagreements"] = stats.get("tie_disagreements", 0) + len(ties)
+
+
 # ----------------------------------------------------------------------------------------------
 # run
 # ----------------------------------------------------------------------------------------------
@@ -1091,11 +1200,14 @@ def run(ctx):
             case.setdefault("meta", {"history": "corpus", "imports": -1})
             runner.run_cases([case], f"corpus/{name}")
         ndocs = ctx.scale(1040, 20000)
-        done = 0
-        while done < ndocs and len(ctx.violations) < 1:
-            batch = [gen_case(rng.fork(), want_nosemi=rng.chance(1, 8)) for _ in range(min(65, ndocs - done))]
-            done += len(batch)
-            runner.run_cases(batch, f"generated documents seed={ctx.seed}")
+        if not ctx.violations:
+            batches = []
+            done = 0
+            while done < ndocs:
+                batches.append([gen_case(rng.fork(), want_nosemi=rng.chance(1, 8)) for _ in range(min(65, ndocs - done))])
+                done += len(batches[-1])
+            deferred = run_doc_batches(ctx, batches, rng, stats, f"generated documents seed={ctx.seed}")
+            report_deferred(ctx, runner, deferred, rng, stats)
         # general module-diff oracle
         nmd = ctx.scale(1500, 30000)
         done = 0
@@ -1136,7 +1248,7 @@ def run(ctx):
         "pair_shape_histogram": stats["shape"], "change_kind_histogram": stats["change_kinds"],
         "documents": stats["cases"], "document_actions_checked": stats["actions"],
         "document_actions_ok": stats["actions_ok"], "distinct_document_actions": len(stats["distinct_actions"]),
-        "history_histogram": stats["history"], "name_length_histogram": stats.get("names_hist", {}), "imports_per_document_histogram": stats["imports_hist"],
+        "history_histogram": stats["history"], "name_length_histogram": stats.get("names_hist", {}), "layout_histogram": stats.get("layout_hist", {}), "imports_per_document_histogram": stats["imports_hist"],
         "action_kind_histogram": stats["action_kinds"], "server_panics_while_building_history": stats["state_panics"],
         "known_finding_hits": stats["known_hits"],
     })
